@@ -234,7 +234,7 @@ class Play:
             # needs is decided per instance, not per class
             extra_ctor = tuple(p for p in all_provs if p.startswith("late"))
             ctor_provs |= set(extra_ctor)
-        is_async = is_async_spec(self.spec, ctor_provs)
+        is_async = is_async_spec(self.spec, ctor_provs, self._instance_cbs)
         it = self.new_interp(ctor_provs, is_async, state0)
         ctx = Ctx(name, None, Hh, it, None)
         self.ctxs[name] = ctx
@@ -300,7 +300,7 @@ class Play:
             except Exception as e:
                 raise Fail("add-listener-failed", f"add_listener({p}) raised {type(e).__name__}: {e}")
         ctx.interp.providers.add(p)
-        ctx.interp.is_async = is_async_spec(self.spec, ctx.interp.providers)
+        ctx.interp.is_async = is_async_spec(self.spec, ctx.interp.providers, ctx.interp.instance_cbs)
         if ctx is self.main:
             self.is_async = ctx.interp.is_async
         ctx.H.log[:] = [t for t in ctx.H.log if t[0] != "G"]
